@@ -321,18 +321,75 @@ def run_switch(case):
     return {'viol': viol, 'stats': st, 'shape': shapes, 'nontrivial': bool(shapes), 'sample': sample}
 
 
+# hand-computed programs for corners the planted-failure generator does not build
+DIRECTED = [
+    # ON ERROR GOTO 0 restores default reporting also in a program that has a line numbered 0
+    ('ON ERROR GOTO zh\nx% = 1 \\ z%\nPRINT "a"\nON ERROR GOTO 0\nGOTO 10\n0 PRINT "line0"\n10 PRINT "b"\nDIM q(2)\nq(5) = 1\nPRINT "never"\nEND\n'
+     'zh: PRINT "h"\nRESUME NEXT\n', ['h', 'a', 'b'], ['trap', 'INDEX_OUT_OF_RANGE']),
+    ('0 PRINT "zero"\nON ERROR GOTO zh\nx% = 1 \\ z%\nON ERROR GOTO 0\nPRINT "c"\nx% = 1 \\ z%\nPRINT "never"\nEND\nzh: PRINT "h"\nRESUME NEXT\n',
+     ['zero', 'h', 'c'], ['trap', 'DIVISION_BY_ZERO']),
+    # RESUME NEXT continues with the statement after the failed one, also inside a single-line IF whose condition is constant
+    ('CONST flag = 1\nON ERROR GOTO zh\nIF flag THEN x% = 1 \\ z%: PRINT "second": PRINT "third"\nPRINT "after"\nEND\nzh: PRINT "h"\nRESUME NEXT\n',
+     ['h', 'second', 'third', 'after'], ['halt']),
+    ('ON ERROR GOTO zh\nIF 1 THEN x% = 1 \\ z%: PRINT "second"\nPRINT "after"\nEND\nzh: PRINT "h"\nRESUME NEXT\n',
+     ['h', 'second', 'after'], ['halt']),
+    ('ON ERROR GOTO zh\nIF 0 THEN PRINT "no" ELSE y% = 1 \\ z%: PRINT "e2": PRINT "e3"\nPRINT "after"\nEND\nzh: PRINT "h"\nRESUME NEXT\n',
+     ['h', 'e2', 'e3', 'after'], ['halt']),
+    ('zv% = 5\nON ERROR GOTO zh\nIF zv% THEN x% = 1 \\ z%: PRINT "second"\nPRINT "after"\nEND\nzh: PRINT "h"\nRESUME NEXT\n',
+     ['h', 'second', 'after'], ['halt']),
+    ('ON ERROR RESUME NEXT\nIF 1 THEN x% = 1 \\ z%: PRINT "second"\nPRINT "after"\n', ['second', 'after'], ['halt']),
+    # errors inside a GOSUB routine: the return address below the failed statement's operands survives the resume
+    ('ON ERROR GOTO zh\nGOSUB work\nPRINT "back"\nGOSUB work\nPRINT "back2"\nEND\nwork: PRINT "w1"\nx% = 7 + 1 \\ z%\nPRINT "w2"\nRETURN\n'
+     'zh: PRINT "h"\nRESUME NEXT\n', ['w1', 'h', 'w2', 'back', 'w1', 'h', 'w2', 'back2'], ['halt']),
+    ('ON ERROR GOTO zh\nGOSUB outer\nPRINT "back"\nEND\nouter: GOSUB inner\nPRINT "o2"\nRETURN\ninner: x% = 3 * (2 + 1 \\ z%)\nPRINT "i2"\nRETURN\n'
+     'zh: PRINT "h"\nRESUME NEXT\n', ['h', 'i2', 'o2', 'back'], ['halt']),
+    ('ON ERROR RESUME NEXT\nGOSUB work\nPRINT "back"\nEND\nwork: x% = 7 + 1 \\ z%\nPRINT "w2"\nRETURN\n', ['w2', 'back'], ['halt']),
+    # RESUME re-executes the whole statement after the handler repaired the cause
+    ('ON ERROR GOTO zh\nGOSUB work\nPRINT "back"\nEND\nwork: PRINT 10 \\ z%\nRETURN\nzh: z% = 2\nRESUME\n', [5, 'back'], ['halt']),
+    # the statement at the very start of the text fails
+    ('x% = 1 \\ z%\nPRINT "after"\n', [], ['trap', 'DIVISION_BY_ZERO']),
+    ('ON ERROR GOTO zh: x% = 1 \\ z%: PRINT "same line"\nPRINT "after"\nEND\nzh: PRINT "h"\nRESUME NEXT\n', ['h', 'same line', 'after'], ['halt']),
+]
+
+
+def run_directed(case):
+    st = {'programs_run': 0, 'planted_failures': 0, 'handler_entries_expected': 0, 'resumes_expected': 0, 'depth_checks': 0,
+          'modes': ['directed'], 'places': [], 'directed_programs': 0}
+    viol = []
+    shapes = []
+    for i, (text, exp, exp_oc) in enumerate(DIRECTED):
+        for O in (0, 1, 2):
+            c = rt.compile_src(text, O, True)
+            if c.status != 'ok':
+                viol.append(V(f'C10:program-rejected:{c.sig or c.err_code}', f'directed {i} O{O}g: {c.brief()} {c.msg}', text=text))
+                continue
+            r = rt.run_module(rt.load_module(c.modbytes), {}, max_ticks=20000)
+            got = [e[1][0][2] for e in r.history if e[0] == 'print' and e[1]]
+            st['programs_run'] += 1
+            st['directed_programs'] += 1
+            shapes.append(f'directed|{i}|{O}')
+            oc = list(r.outcome[:2]) if r.outcome[0] == 'trap' else list(r.outcome[:1])
+            if got != exp or oc != exp_oc:
+                viol.append(V(f'C10:directed:{i}', f'O{O}g: printed {got} and ended {r.outcome}; statement-level semantics give {exp} '
+                              f'and {exp_oc}', text=text))
+    return {'viol': viol, 'stats': st, 'shape': shapes, 'nontrivial': True, 'sample': {'directed_program': DIRECTED[0][0]}}
+
+
 def gen_cases(tier, seed):
     n = 800 if tier == 'quick' else 8000
     B = 20
     cs = [{'seed': seed * 100003 + i, 'n': B} for i in range(0, n, B)]
     ns = 160 if tier == 'quick' else 3000
     cs += [{'kind': 'switch', 'seed': seed * 70001 + i, 'n': B} for i in range(0, ns, B)]
+    cs.append({'kind': 'directed', 'seed': seed})
     return cs
 
 
 def run_case(case):
     if case.get('kind') == 'switch':
         return run_switch(case)
+    if case.get('kind') == 'directed':
+        return run_directed(case)
     r = random.Random(case['seed'])
     st = {'programs_run': 0, 'planted_failures': 0, 'handler_entries_expected': 0, 'resumes_expected': 0, 'depth_checks': 0,
           'modes': [], 'places': []}
